@@ -36,14 +36,14 @@ def plan(tier, seed):
         for part in range(4):
             specs.append(dict(kind='pairs3', order=o, part=part, parts=4,
                               hashseed=k))
-    ns = 64 if tier == 'thorough' else 16
+    ns = 128 if tier == 'thorough' else 16
     for k in range(ns):
         specs.append(dict(kind='sampled', sub=k, n=1 + (k % 5),
-                          rounds=60 if tier == 'thorough' else 24,
+                          rounds=400 if tier == 'thorough' else 24,
                           auto=(k % 4 == 3), hashseed=k))
     for k in range(ns):
         specs.append(dict(kind='sift', sub=k, n=2 + k % 5,
-                          rounds=40 if tier == 'thorough' else 20,
+                          rounds=300 if tier == 'thorough' else 20,
                           auto=(k % 3 == 2), hashseed=100 + k))
     meta = dict(
         rule=RULE,
